@@ -121,3 +121,17 @@ Theorem c04_revert_breaks_snapshots_refuted :
   ~ readable (d_file sj) si.
 Proof. exact DSnapshot.revert_breaks_snapshots. Qed.
 Print Assumptions c04_revert_breaks_snapshots_refuted.
+
+(* Snapshot in the source: read-only, the same callbacks, file and lock objects, one more reference per collection *)
+Theorem c04_snapshot_function_is_source :
+  body "Store.Snapshot" =
+    [SAssign [GVar "coll"] ":=" [GCall "copyColl" [GUn "*" (GCall "s.getColl" [])]];
+     SAssign [GVar "res"] ":="
+       [GUn "&" (GOther "Store{  coll:  &coll,  file:  s.file,  size:  atomic.LoadInt64(&s.size),  readOnly: true,  callbacks: s.callbacks, }")];
+     SRange (GVar "_") (GVar "name") (GCall "collNames" [GVar "coll"])
+       [SAssign [GVar "collOrig"] ":=" [GCall "[]" [GVar "coll"; GVar "name"]];
+        SAssign [GCall "[]" [GVar "coll"; GVar "name"]] "="
+          [GUn "&" (GOther "Collection{  store:  res,  compare: collOrig.compare,  rootLock: collOrig.rootLock,  root:  collOrig.rootAddRef(), }")]];
+     SReturn [GVar "res"]].
+Proof. exact Decisions.snapshot_function. Qed.
+Print Assumptions c04_snapshot_function_is_source.
